@@ -24,3 +24,31 @@ OBLS += [
     Obl('C01.trim_prune.exact/b12', ['C01', 'C02'], 'B(12)', 'c10/trim_prune.c', roots=['trim_c0_whitespace', 'prune_hash'], bufn=12, unwind=14, includes=INC,
         timeout=600, bound='input <= 12 bytes', note='trim_c0_whitespace and prune_hash equal their reference definitions'),
 ]
+OBLS += [
+    Obl('C10.serializers.ipv4.roundtrip', ['C10', 'C05', 'C02'], 'P#', 'c10/ser_ipv4.c', roots=['serializers_ipv4', 'try_parse_ipv4_fast'], includes=INC, unwind=20,
+        defines=['STR_CAP=16'], globals=[('ipv4_fast_fail', U64)], solver='kissat', timeout=900,
+        note='all 2^32 addresses: serializer == Standard\'s dotted decimal, and the real parser inverts it'),
+    Obl('C10.serializers.ipv6.exact', ['C10', 'C05', 'C02'], 'P#', 'c10/ser_ipv6.c', roots=['serializers_ipv6'], includes=INC, unwind=10, unwindset=['str_ctor__z_c.0:43', 'str_resize__z_c.0:43'],
+        defines=['STR_CAP=42'], solver='kissat', timeout=3000, tier='thorough',
+        note='all 2^128 addresses: real serializer == the Standard\'s IPv6 serializer (first longest zero run compressed, lower-case hex, no leading zeros)'),
+]
+OBLS.append(Obl('C10.parse_host.host_type_truthful', ['C10', 'C04', 'C19', 'C02'], 'B(8)', 'auto', roots=['agg_parse_host'], enforce='agg_parse_host',
+                replace=['agg_parse_ipv6', 'agg_parse_ipv4', 'agg_parse_opaque_host', 'agg_update_base_hostname', 'unicode_to_ascii'],
+                specs={'agg_parse_host': 'skel/agg_parse_host.hosttype.spec', 'agg_update_base_hostname': 'skel/agg_update_base_hostname.spec',
+                       'agg_parse_ipv6': 'skel/agg_parse_ipv6.hosttype.spec', 'agg_parse_ipv4': 'skel/agg_parse_ipv4.hosttype.spec',
+                       'agg_parse_opaque_host': 'skel/agg_parse_opaque_host.hosttype.spec', 'unicode_to_ascii': 'skel/unicode_to_ascii.spec'},
+                bufn=8, unwind=20, defines=['STR_CAP=8', 'BUF_START=1'], includes=['spec/urlspec.h', 'spec/scan.h', 'model/hosttype_ghost.h'],
+                globals=[('omitted', 'const unsigned int'), ('ipv4_fast_fail', U64)], enums=[('ada::scheme::type', 'NOT_SPECIAL')], solver='cadical', timeout=1200,
+                object_bits=11, bound='host <= 8 bytes, string capacity 8',
+                note='after parse_host succeeds host_type == kind of the host written (IPv6 iff bracketed, IPv4 iff special and an IPv4 parser accepted it, else default), regardless of the previous kind'))
+
+from obligations.c09 import ABSTRACT as _ABS, SPECS as _SP
+_sp = dict(_SP); _sp['parse_url_impl_agg_1'] = 'parse_url_impl_agg_1.hosttype.spec'
+_sp['agg_update_host_to_base_host'] = 'skel/agg_update_host_to_base_host.hosttype.spec'
+_sp['agg_parse_host'] = 'skel/agg_parse_host.frombase.spec'
+_sp['agg_update_base_hostname'] = 'skel/agg_update_base_hostname.frombase.spec'
+OBLS.append(Obl('C10.parse_url_impl.host_type_from_base', ['C10', 'C04', 'C02'], 'Pinf', 'c10/parse_hosttype_base.c', roots=['parse_url_impl_agg_1'],
+                stub=_ABS, specs=_sp, bufn=8, defines=['STR_CAP=6', 'BUF_START=1'], includes=['spec/urlspec.h', 'spec/scan.h', 'model/hosttype_ghost.h'],
+                globals=[('omitted', 'const unsigned int')], enums=[('ada::state', x) for x in ('PORT', 'FRAGMENT', 'RELATIVE_SCHEME', 'RELATIVE_SLASH', 'SPECIAL_RELATIVE_OR_AUTHORITY', 'AUTHORITY')],
+                solver='cadical', timeout=3000, object_bits=12, unwind=8,
+                note='parser state machine (loops cut, sub-parsers abstract): host taken over from the base => host_type taken over too, at every exit'))
